@@ -326,11 +326,13 @@ def real_grid_corners(res, tier):
     """on real grids the corner coordinates exhibit the decoded adjacency, and shared-edge points coincide"""
     import gridlab
 
-    specs = [gridlab.tokamak_spec("lsn"), gridlab.tokamak_spec("cdn", options={"ny_inner_upper_divertor": 2, "ny_outer_upper_divertor": 5})]
+    # circular: the only topology whose periodic y-group starts with region number 0
+    specs = [gridlab.tokamak_spec("lsn"), gridlab.tokamak_spec("cdn", options={"ny_inner_upper_divertor": 2, "ny_outer_upper_divertor": 5}),
+             gridlab.circular_spec()]
     if tier == "thorough":
         specs += [gridlab.tokamak_spec("ldn"), gridlab.tokamak_spec("udn"), gridlab.tokamak_spec("usn", options={"y_boundary_guards": 2}),
                   gridlab.tokamak_spec("lsn", options={"orthogonal": False, "ny_outer_divertor": 9}),
-                  gridlab.circular_spec()]
+                  gridlab.circular_spec(options={"number_of_processors": 1, "nx": 3, "ny": 12})]
     for g in gridlab.get(specs):
         name = g["spec"].get("geometry", "circular")
         if g["error"]:
@@ -359,6 +361,37 @@ def real_grid_corners(res, tier):
                 worst = max(worst, d)
         res.case(key=("grid", name, myg), nontrivial=True, sample={"op": "corner coincidence across decoded adjacency", "grid": name,
                                                                   "max_mismatch_m": worst})
+        # chi / theta computed by the real calcZShift and written by the real writeGridfile: finite, within [0, 2 pi] and increasing along
+        # the decoded poloidal walk on closed field lines, NaN on open ones (a toroidal field is present in all these grids)
+        from props.c12 import core_mask
+
+        closed = core_mask(v)
+        for nm in ("chi", "theta"):
+            if nm not in v:
+                continue
+            a2 = v[nm]
+            if nm == "chi":
+                if closed.any() and not np.isfinite(a2[closed]).all():
+                    res.violation("real-chi-nan-core:" + name, "%s: chi is not finite at %d of %d cells on closed field lines (ShiftAngle not set for the periodic "
+                                  "group?)" % (name, int((~np.isfinite(a2[closed])).sum()), int(closed.sum())), {"spec": g["spec"]})
+                    continue
+                if (~closed).any() and not np.isnan(a2[~closed]).all():
+                    res.violation("real-chi-open:" + name, "%s: chi is not NaN at %d cells on open field lines" % (name, int((~np.isnan(a2[~closed])).sum())), {"spec": g["spec"]})
+            if closed.any():
+                vals = a2[closed]
+                if np.isfinite(vals).all() and (vals.min() < -1e-9 or vals.max() > 2 * np.pi + 1e-9):
+                    res.violation("real-%s-range:%s" % (nm, name), "%s: %s leaves [0, 2 pi] on closed field lines (%.6g .. %.6g)" % (name, nm, vals.min(), vals.max()), {"spec": g["spec"]})
+                # increasing along the decoded walk within the core (the wrap from the last to the first core cell excepted)
+                for x in range(t["nx"]):
+                    for j in range(t["ny"]):
+                        nj = decode_next(t, x, j)
+                        if nj is None:
+                            continue
+                        a, b = arr(j), arr(nj)
+                        if closed[x, a] and closed[x, b] and np.isfinite(a2[x, a]) and np.isfinite(a2[x, b]) and a2[x, b] <= a2[x, a] and a2[x, b] > 1.0:
+                            res.violation("real-%s-order:%s" % (nm, name), "%s: %s decreases from cell (%d,%d) to its poloidal successor (%d,%d) away from the wrap" % (
+                                name, nm, x, a, x, b), {"spec": g["spec"]})
+                            break
         if worst > 1e-6:
             res.violation("corners:" + name, "corners of cells adjacent by the decoded topology do not coincide (max %.3g m)" % worst,
                           {"spec": g["spec"]})
